@@ -570,3 +570,75 @@ Proof.
   intros Hf. unfold construct_trace. apply bind_nofuel; [|intros [es d] _; apply nofuel_ok].
   apply ctrace_nofuel; [apply sub_refl|]. unfold unsafe_bound. rewrite free_nil. exact Hf.
 Qed.
+
+(* ================= entry points on an arbitrary schema ================= *)
+Lemma root_tree_nofuel E schema : jdepth schema < default_fuel -> nofuel (root_tree E schema).
+Proof.
+  intros Hd. unfold root_tree. apply bind_nofuel; [apply jindex_nofuel|]. intros p _. apply get_tree_nofuel. exact Hd.
+Qed.
+
+(* a schema nested less deeply than get_tree's fuel whose tree (if one is built) fits the audit fuel:
+   the model's answer is a genuine outcome *)
+Theorem get_untrusted_types_genuine E schema :
+  jdepth schema < default_fuel ->
+  (forall t m, root_tree E schema = Ok (t, m) -> audit_fits t) ->
+  nofuel (get_untrusted_types E schema).
+Proof.
+  intros Hd Hf. destruct (root_tree E schema) as [[t m]|e] eqn:RT.
+  - eapply get_untrusted_types_nofuel; [exact RT | eapply Hf; reflexivity].
+  - pose proof (root_tree_nofuel E schema Hd) as N. unfold get_untrusted_types. rewrite RT in *. cbn [bind]. intros X. apply N. injection X as ->. reflexivity.
+Qed.
+
+Theorem load_audit_genuine E schema ta :
+  jdepth schema < default_fuel ->
+  (forall t m, root_tree E schema = Ok (t, m) -> audit_fits t) ->
+  nofuel (load_audit E schema ta).
+Proof.
+  intros Hd Hf. destruct (root_tree E schema) as [[t m]|e] eqn:RT.
+  - eapply load_audit_nofuel; [exact RT | eapply Hf; reflexivity].
+  - pose proof (root_tree_nofuel E schema Hd) as N. unfold load_audit. destruct ta; [apply nofuel_raise; discriminate|].
+    rewrite RT in *. cbn [bind]. intros X. apply N. injection X as ->. reflexivity.
+Qed.
+
+Theorem visualize_genuine E skipped schema T sh :
+  jdepth schema < default_fuel ->
+  (forall t m, root_tree E schema = Ok (t, m) -> audit_fits t /\ walk_fits t) ->
+  nofuel (visualize E skipped schema T sh).
+Proof.
+  intros Hd Hf. destruct (root_tree E schema) as [[t m]|e] eqn:RT.
+  - destruct (Hf t m eq_refl). eapply visualize_nofuel; eauto.
+  - pose proof (root_tree_nofuel E schema Hd) as N. unfold visualize, visualize_stream. rewrite RT in *. cbn [bind].
+    intros X. apply N. injection X as ->. reflexivity.
+Qed.
+
+(* ================= witnesses ================= *)
+(* ids the Refs of a tree point to, in pre-order *)
+Fixpoint refs (n : node) : list hkey :=
+  match n with
+  | Node _ subs => flat_map refs subs
+  | Ref _ id => [id]
+  | Leaf _ _ => []
+  end.
+
+Definition jlist (id : option Z) (content : list json) : json :=
+  JObj ([(s "__class__", JStr (s "list")); (s "__module__", JStr (s "builtins")); (s "__loader__", JStr (s "ListNode"))]
+        ++ (match id with Some i => [(s "__id__", JInt i)] | None => [] end) ++ [(s "content", JArr content)]).
+Definition jref (i : Z) : json := JObj [(s "__id__", JInt i)].
+Definition jroot (proto id : Z) (content : list json) : json :=
+  JObj [(s "__class__", JStr (s "list")); (s "__module__", JStr (s "builtins")); (s "__loader__", JStr (s "ListNode"));
+        (s "__id__", JInt id); (s "protocol", JInt proto); (s "content", JArr content)].
+
+(* root = [a, a, root] with a = [a, []]: a shared id and two cycles (a list that contains itself) *)
+Definition knot_json (proto : Z) : json :=
+  jroot proto 1 [jlist (Some 2%Z) [jref 2; jlist None []]; jref 2; jref 1].
+
+(* the tower: k blocks side by side under the root; block i is a list with id i on top of a chain of d id-less
+   lists that ends in a reference to block i+1 (written earlier in the file, hence already memoised).  The audit
+   of block 1 runs through all k blocks: recursion depth about k * (d + 2) for a schema nested 2 * d + 6 deep. *)
+Fixpoint jchain (d : nat) (inner : json) : json :=
+  match d with O => inner | S d' => jlist None [jchain d' inner] end.
+Definition jblock (d k i : nat) : json :=
+  jlist (Some (Z.of_nat i)) [jchain d (if Nat.ltb i k then jref (Z.of_nat (S i)) else jlist None [])].
+Fixpoint jblocks (d k i : nat) : list json :=
+  match i with O => [] | S i' => jblock d k i :: jblocks d k i' end.
+Definition tower_json (proto : Z) (d k : nat) : json := jroot proto 1000 (jblocks d k k).
